@@ -91,6 +91,40 @@ def notifyRun (a h : Nat) : Bool → List NEv → List Nat
   | reg, .remove :: es => notifyRun a h false es
   | reg, .data m :: es => (if reg ∧ m.address = a ∧ m.handle = h then [m.data] else []) ++ notifyRun a h reg es
 
+/-! ## service discovery (a collecting request) -/
+
+/-- what `bluetooth_gatt_get_services` listens to; every one carries an address only -/
+inductive SKind
+  | services (ids : List Nat)     -- BluetoothGATTGetServicesResponse (the handles of the services it lists)
+  | done                          -- BluetoothGATTGetServicesDoneResponse
+  | error                         -- BluetoothGATTErrorResponse (any handle)
+  | conn                          -- BluetoothDeviceConnectionResponse
+  | other
+deriving DecidableEq, Repr
+
+structure SMsg where
+  kind : SKind
+  address : Nat
+deriving DecidableEq, Repr
+
+inductive SOutcome
+  | services (ids : List Nat) | gattError | dropped | timeout
+deriving DecidableEq, Repr
+
+/-- `send_messages_await_response_complex` with `do_append` = own address ∧ (services | error | conn) and `do_stop` = own
+address ∧ (done | error | conn), then the post-processing loop: a connection change or an error among the collected
+messages raises (whatever was collected before it is dropped), otherwise the listed services are concatenated -/
+def getServices (addr : Nat) : List SMsg → List Nat → SOutcome
+  | [], _ => .timeout
+  | m :: ms, acc =>
+    if m.address ≠ addr then getServices addr ms acc
+    else match m.kind with
+      | .services ids => getServices addr ms (acc ++ ids)
+      | .done => .services acc
+      | .error => .gattError
+      | .conn => .dropped
+      | .other => getServices addr ms acc
+
 /-! ## device connect, timeout branch -/
 
 /-- `resp a c` = a `BluetoothDeviceConnectionResponse` for address `a` with `connected = c` -/
